@@ -255,3 +255,18 @@ pub fn conform(router: &VerifRouter, tcp: &TcpBinding, segments: &[Vec<u8>]) -> 
     }
     Ok(())
 }
+
+/// Weaker binding for checks whose oracle is differential *within* one world (C06): the model and the real session must agree on
+/// the shape of the session - number of responses, their statuses, who closed first - not on every byte (the real session may
+/// add what the model cannot know, e.g. a `Connection` header).
+pub fn conform_shape(router: &VerifRouter, tcp: &TcpBinding, segments: &[Vec<u8>], heads: &[bool]) -> Result<(), String> {
+    let mem = run_mem(router, segments);
+    let real = tcp.run(router, segments)?;
+    let (m, ml) = split_responses(&mem.written, heads);
+    let (r, rl) = split_responses(&real.written, heads);
+    let (ms, rs): (Vec<u16>, Vec<u16>) = (m.iter().map(|x| status_of(x)).collect(), r.iter().map(|x| status_of(x)).collect());
+    if ms != rs || ml.is_empty() != rl.is_empty() { return Err(format!("model answers {ms:?} (+{} stray bytes), implementation {rs:?} (+{} stray bytes)", ml.len(), rl.len())) }
+    let mem_server_closed = matches!(mem.end, End::ServerClosed { .. });
+    if mem_server_closed != real.server_closed_first { return Err(format!("model end {:?} vs implementation server_closed_first={}", mem.end, real.server_closed_first)) }
+    Ok(())
+}
